@@ -25,7 +25,11 @@ def ev(f):
 
 # values that exist in memory only (NaN / INF with a unit has no ZINC or JSON literal): they take part in == like any other
 _NAN = float('nan')
-EXTRA = [C.E('qty:nan kg', N.num(_NAN, 'kg'), rep=True), C.E('qty:nan m', N.num(_NAN, 'm'), rep=True), C.E('qty:inf kg', N.num(float('inf'), 'kg'))]
+EXTRA = [C.E('qty:nan kg', N.num(_NAN, 'kg'), rep=True), C.E('qty:nan m', N.num(_NAN, 'm'), rep=True), C.E('qty:inf kg', N.num(float('inf'), 'kg')),
+         # large values that differ materially in absolute terms and by less than 1e-6 in relative terms (the tolerance is absolute)
+         C.E('num:1500000000', N.num(1500000000.0), rep=True), C.E('num:1500000001', N.num(1500000001.0), rep=True),
+         C.E('qty:123456.0kWh', N.num(123456.0, 'kWh'), rep=True), C.E('qty:123456.1kWh', N.num(123456.1, 'kWh'), rep=True),
+         C.E('num:40000000.5', N.num(40000000.5)), C.E('num:40000000', N.num(40000000.0))]
 
 
 def entries(soft=False):
@@ -97,12 +101,18 @@ def pair_task(rows, names):
             req = ev(lambda: y == x)
             obs = (eq[0], ne[0])
             allowed_raise = both_quantities(hs, x, y) and x.unit != y.unit
+            if not allowed_raise and a.n[0] == b.n[0] and a.n[0] in ('list', 'dict'):
+                # plain Python containers compare their members with ==: the documented TypeError of two quantities in different
+                # units surfaces through them (that is Python's list / dict equality, not hszinc's)
+                ua = set(x_[2] for x_ in N.walk(a.n) if x_[0] == 'num' and x_[2] is not None)
+                ub = set(x_[2] for x_ in N.walk(b.n) if x_[0] == 'num' and x_[2] is not None)
+                allowed_raise = bool(ua) and bool(ub) and ua != ub
             if 'raise' in (eq[0], ne[0]):
                 if not allowed_raise or (eq, ne) != (('raise', 'TypeError'), ('raise', 'TypeError')):
                     st.fail('equality-raised', dict(sig, exc=str(eq[1] if eq[0] == 'raise' else ne[1])), case, {'eq': repr(eq), 'ne': repr(ne)})
                 st.case((an, bn), nontrivial=an != bn, outcome=('raise', sig['kinds']))
                 continue
-            if allowed_raise and (x.unit or None) != (y.unit or None):
+            if allowed_raise and both_quantities(hs, x, y) and (x.unit or None) != (y.unit or None):
                 st.fail('quantities-with-differing-units-compared-without-TypeError', sig, case, {'eq': repr(eq)})
             e_, n_ = eq[1], ne[1]
             if not isinstance(e_, bool) or not isinstance(n_, bool):
